@@ -6,21 +6,6 @@ From Coq Require Import ZArith List Bool.
 Import ListNotations.
 Open Scope Z_scope.
 
-(* derive-partialord: `@derive(PartialOrd)` alone emits PartialOrd without PartialEq *)
-Theorem C20_derive_closed_refuted :
-  exists req row e, In (req, row) (combine (powerset decorators) gen_table_model) /\
-    Known_C20_partialord_without_partialeq req /\ row_derives row = Some e /\ closed e = false.
-Proof.
-  assert (H : existsb (fun p => known_partialordb (fst p) &&
-                match row_derives (snd p) with Some e => negb (closed e) | None => false end)
-              (combine (powerset decorators) gen_table_model) = true) by (vm_compute; reflexivity).
-  apply existsb_exists in H as [[req row] [Hin H]]. cbn [fst snd] in H.
-  apply andb_prop in H as [Hk H]. destruct (row_derives row) as [e|] eqn:E; [|discriminate].
-  exists req, row, e. split; [exact Hin|]. split; [now apply known_partialordb_spec|].
-  split; [exact E|]. now apply negb_true_iff in H.
-Qed.
-Print Assumptions C20_derive_closed_refuted.
-
 (* derive-display: `@derive(Display)` is passed through to #[derive(Display)], which no crate in
    scope provides *)
 Theorem C20_derive_resolvable_refuted :
